@@ -83,6 +83,10 @@ package witness
 //@   ensures[C01.b]  committed ==> err == nil
 //@   ensures[C01.c]  n_commit <= old(n_commit) + 1
 //@
+//@   // ---- isolation (C12): nothing but this log's entry in this witness's store can change, and it changes only to a checkpoint of this log
+//@   ensures[C12.f]  forall p Iface, k Str :: (p != S || k != logID) ==> st_has[p][k] == old(st_has[p][k]) && st_val[p][k] == old(st_val[p][k])
+//@   ensures[C12.f]  committed ==> logOf(set_h) == logID && storeOf(set_h) == S && parsesAs(nextRaw, L.Origin, L.SigV) && text(set_arg) == text(nextRaw)
+//@
 //@   // ---- refusal (C03)
 //@   ensures[C03.a]  err != nil ==> st_has == old(st_has) && st_val == old(st_val) && n_commit == old(n_commit)
 //@   ensures[C03.b]  err != nil ==> out == nil || (stored && out == pv)
